@@ -12,7 +12,7 @@ fn rv(rng: &mut Rng, scale: f64) -> DVec3 {
 }
 
 fn scale(rng: &mut Rng) -> f64 {
-    [1.0, 1.0, 1.0, 1e-3, 1e3, 0.125, 7.5][rng.below(7) as usize]
+    [1.0, 1.0, 1.0, 1e-3, 1e3, 0.125, 7.5, 1e-6, 1e-9, 1e6][rng.below(10) as usize]
 }
 
 /// a "structured" vector: small integers / dyadic fractions (exact arithmetic in the helpers)
